@@ -22,7 +22,7 @@ func init() {
 	}
 	reg("C09.dispatch", "SHAPE", "command table maps each of the 12 names to its handler; unknown => fatal E_INVALID; IOLoop leaves on fatal errors only; bad magic => E_BAD_PROTOCOL", 16, c09dispatch)
 	reg("C09.errtype", "ETYPE", "Exec returns only nil, *ClientErr or *FatalClientErr (discharges err.(ChildErr) in IOLoop)", 2, c09errtype)
-	reg("C09.wirelen", "GUARD", "allocations sized by a wire integer have a dominating lower and upper bound", 6, c09wirelen)
+	reg("C09.wirelen", "GUARD", "allocations sized by a wire integer have a dominating lower and upper bound", 3, c09wirelen)
 	reg("C09.limits", "GUARD", "limit table: exact reject regions, fatal class and E_* code for sizes/counts; accept regions for negotiated options; name rule", 30, c09limits)
 	reg("C09.names", "GUARD+ORIG", "names reaching GetTopic/GetChannel/registries were validated on a dominating edge", 8, c09names)
 	reg("C09.state", "GUARD", "connection-state table guards each command's effect; client.Channel is dereferenced only after SUB", 12, c09state)
@@ -483,6 +483,19 @@ func c09limits(c *an.Ctx) {
 			case "makeslice":
 				if ms, ok := in.(*ssa.MakeSlice); ok {
 					if sameQty(ms.Len, q) || sameQty(ms.Cap, q) {
+						use = in
+					}
+				}
+				// other ways of consuming exactly n bytes: bufio Peek/Discard, io.CopyN, io.LimitReader
+				if call, ok := in.(*ssa.Call); ok {
+					n := -1
+					switch {
+					case an.StdCallee(call, "bufio", "(*Reader).Peek"), an.StdCallee(call, "bufio", "(*Reader).Discard"), an.StdCallee(call, "io", "LimitReader"):
+						n = 1
+					case an.StdCallee(call, "io", "CopyN"):
+						n = 2
+					}
+					if n >= 0 && n < len(call.Call.Args) && sameQty(call.Call.Args[n], q) {
 						use = in
 					}
 				}
@@ -1108,8 +1121,10 @@ func c09params(c *an.Ctx) {
 			n++
 			construct := sprintf("params[%d] in range", k)
 			if cmd == "Exec" && k == 0 {
-				c.OK(fn, construct, ia.Pos(), "bytes.Split with a non-empty separator returns >= 1 element (contract)")
-				return
+				if ne, _ := paramsNonEmpty(c, fn); ne {
+					c.OK(fn, construct, ia.Pos(), "every caller passes bytes.Split(_, non-empty sep), which returns >= 1 element")
+					return
+				}
 			}
 			good := false
 			for _, cmp := range an.CmpsAt(ia.Block()) {
@@ -1205,16 +1220,22 @@ func c09mpub(c *an.Ctx) {
 			continue
 		}
 		var succ []an.Edge
-		for _, pc := range an.CallsTo(fn, putMsg, putMsgs) {
+		var unchecked []ssa.Instruction
+		puts := an.CallsTo(fn, putMsg, putMsgs)
+		for _, pc := range puts {
 			s, _ := an.ErrEdges(pc.Value())
 			succ = append(succ, s...)
+			if len(s) == 0 {
+				// result not tested: whatever follows the call follows a (possibly) successful put
+				unchecked = append(unchecked, pc.(ssa.Instruction))
+			}
 		}
-		q := &an.PathQ{Fn: fn, StartEdges: succ, Sink: func(in ssa.Instruction, _ *an.PathState) bool {
+		q := &an.PathQ{Fn: fn, StartEdges: succ, StartAfter: unchecked, Sink: func(in ssa.Instruction, _ *an.PathState) bool {
 			r, ok := in.(*ssa.Return)
 			return ok && !isSuccessReturn(r)
 		}}
 		w, f := q.Find()
-		if f || len(succ) == 0 {
+		if f || len(puts) == 0 {
 			c.Bad(fn, "an error answer means nothing was enqueued", fn.Pos(), "after the message was enqueued the command can still answer with an error: the publisher retries and the message is duplicated", w)
 		} else {
 			c.OK(fn, "an error answer means nothing was enqueued", fn.Pos(), "")
@@ -1223,14 +1244,17 @@ func c09mpub(c *an.Ctx) {
 		var reads []an.Edge
 		n := 0
 		an.Instrs(fn, func(in ssa.Instruction) {
-			if call, ok := in.(*ssa.Call); ok && an.StdCallee(call, "io", "ReadFull") {
+			// io.ReadFull(r, buf) and (*bufio.Reader).Peek(n) both fail unless all n bytes were obtained
+			if call, ok := in.(*ssa.Call); ok && (an.StdCallee(call, "io", "ReadFull") || an.StdCallee(call, "bufio", "(*Reader).Peek")) {
 				n++
-				s, _ := an.ErrEdges(call)
+				s, _ := an.ErrEdgesPhi(call)
 				reads = append(reads, s...)
 			}
 		})
 		if n > 0 {
-			q := &an.PathQ{Fn: fn, StartEntry: true, Sink: func(in ssa.Instruction, _ *an.PathState) bool { return isCallToOn(in, putMsg, nil) || isCallToOn(in, putMsgs, nil) },
+			q := &an.PathQ{Fn: fn, StartEntry: true, Sink: func(in ssa.Instruction, _ *an.PathState) bool {
+				return isCallToOn(in, putMsg, nil) || isCallToOn(in, putMsgs, nil)
+			},
 				CutEdge: func(e an.Edge, _ *an.PathState) bool { return an.EdgeIn(e, reads) }}
 			w, f := q.Find()
 			if f {
